@@ -24,16 +24,21 @@ def oracle(ctx, c):
                            f"listed shard with n={x['n']} stored={ids if isinstance(ids, str) else len(ids)} eps={eps}",
                            {"case": F.slim(c), "split": s, "shard": x})
                 return
-        # full-except-last, per session, when the split's metadata never changed in that session
+        # full-except-last: within a session, a shard that is not the last and not full must have been closed by a
+        # metadata change, i.e. between its last example and the next shard's first example some write to this split
+        # carried a non-empty metadata value different from the shard's own.
+        from harness.checks.fill_common import md_code
         for si, recs in enumerate(impl["records"]):
-            mds = {r["md"] for r in recs if r["split"] == s and r["md"] != 0}
-            if len(mds) > 1 or c["mutate"]:
-                continue
             seg = [x for x in shards if x["ids"] and sess_of.get(x["ids"][0]) == si]
-            for x in seg[:-1]:
-                if x["n"] != eps:
+            mine = [r for r in recs if r["split"] == s]
+            for x, nxt in zip(seg, seg[1:]):
+                if x["n"] == eps:
+                    continue
+                a, b = x["ids"][-1], nxt["ids"][0]
+                own = md_code(x["md"])
+                if not any(a < r["ex"] <= b and r["md"] not in (0, own) for r in mine):
                     ctx.report({"kind": "not-full", "format": c["fmt"]},
-                               f"non-last shard of session {si} split {s} holds {x['n']} != eps={eps} although metadata never changed",
+                               f"non-last shard of session {si} split {s} holds {x['n']} < eps={eps} although the metadata did not change there",
                                {"case": F.slim(c), "split": s, "segment": seg})
                     return
 
